@@ -45,6 +45,8 @@ type Op struct {
 	Consumes []string `json:"consumes,omitempty"`
 	Produces []string `json:"produces,omitempty"`
 	Sec      Sec      `json:"sec,omitempty"`
+	// Deprecated: the description marks the operation `deprecated: true` (a note for clients; it is declared all the same) (r7)
+	Deprecated bool `json:"deprecated,omitempty"`
 }
 
 // RegOp is one RegisterOperation call.
@@ -135,6 +137,9 @@ func (c Case) document(asLoaded bool) []byte {
 		}
 		if op.Sec.Set {
 			o["security"] = secJSON(op.Sec)
+		}
+		if op.Deprecated {
+			o["deprecated"] = true
 		}
 		item[op.Method] = o
 	}
